@@ -7,6 +7,11 @@ mod c02;
 mod c04;
 mod c05;
 mod c06;
+mod c07;
+mod c08;
+mod c09;
+mod fast;
+mod c10;
 mod c12;
 mod zipx;
 mod c17;
@@ -23,6 +28,10 @@ fn main() {
         "c04" => c04::run(&args),
         "c05" => c05::run(&args),
         "c06" => c06::run(&args),
+        "c07" => c07::run(&args),
+        "c08" => c08::run(&args),
+        "c09" => c09::run(&args),
+        "c10" => c10::run(&args),
         "c12" => c12::run(&args),
         "c17" => c17::run(&args),
         "c18" => c18::run(&args),
